@@ -32,13 +32,18 @@ Pinned == {"basepath_needs_host",        \* F-C17-4   servers only when there is
            "back_http_https_only",       \* F-C17-10
            "back_binary_is_parameter",   \* F-C17-11  every binary string schema is taken for a form file parameter
            "back_json_only",             \* F-C17-12
-           "back_input_nullable_reset",  \* F-C17-18/19 FromV3 resets nullable in its input; a shared body with several media types loses x-nullable
            "back_body_name_search_first"} \* F-C17-15  a free name among body / requestBody is demanded even when x-originalParamName is there
 
 (* switches of behaviours that have been repaired in the tree (not in Pinned any more): *)
 (*   "back_no_discriminator"     F-C17-1                                                 *)
 (*   "back_binary_param_panics"  F-C17-14 FromV3Parameter dereferenced the nil schema    *)
-Repaired == {"back_no_discriminator", "back_binary_param_panics"}
+(*   "back_binary_param_type_format_only"  F-C17-16 ... then kept only type and format   *)
+(*   "back_input_nullable_reset" F-C17-18/19 FromV3 reset nullable in its input; a shared *)
+(*                               body with several media types lost x-nullable            *)
+(* (F-C17-17, the x-formData-name marker written into ToV3's input, was an edit of the    *)
+(* input only and never had a switch: the model has no notion of the input changing)      *)
+Repaired == {"back_no_discriminator", "back_binary_param_panics", "back_binary_param_type_format_only",
+             "back_input_nullable_reset"}
 
 RefV(o) == IF o.m["$ref"].t = "str" THEN o.m["$ref"].s ELSE "?"
 RefO(r) == O(KV("$ref", S(r)))
@@ -286,7 +291,10 @@ FromV3Param(p, comps, names) ==
                 IF IsParam(r) THEN
                    IF "back_binary_param_panics" \in Dev
                    THEN O(KV("$panic", S("nil schema")))        \* F-C17-14 (repaired in the tree): the nil schema was dereferenced
-                   ELSE O(base @@ [k \in Keys(p.m["schema"]) \cap {"type", "format"} |-> p.m["schema"].m[k]])   \* type and format are kept
+                   ELSE O(base @@ [k \in Keys(p.m["schema"]) \cap
+                                        (IF "back_binary_param_type_format_only" \in Dev THEN {"type", "format"}
+                                         ELSE {"type", "format", "enum", "minLength", "maxLength", "pattern", "default"})
+                                    |-> p.m["schema"].m[k]])   \* the string keywords are copied from the v3 schema
                 ELSE IF Has(r, "$ref") THEN O(base @@ KV("schema", r))
                 ELSE O(base @@ [k \in Keys(r) \cap ParamKeys |-> r.m[k]])
 
